@@ -118,6 +118,10 @@ func canonicalAddr(u *base.URL) string {
 	return net.JoinHostPort(addr, port)
 }
 
+const (
+	clientMaxRedirects = 10
+)
+
 func isAnyPort(p int) bool {
 	return p == 0 || p == 1
 }
@@ -1453,6 +1457,13 @@ func (c *Client) Options(u *base.URL) (*base.Response, error) {
 }
 
 func (c *Client) doDescribe(u *base.URL) (*description.Session, *base.Response, error) {
+	return c.doDescribeRedirect(u, 0)
+}
+
+func (c *Client) doDescribeRedirect(
+	u *base.URL,
+	redirectCount int,
+) (*description.Session, *base.Response, error) {
 	err := c.checkState(map[clientState]struct{}{
 		clientStateInitial:   {},
 		clientStatePrePlay:   {},
@@ -1508,7 +1519,12 @@ func (c *Client) doDescribe(u *base.URL) (*description.Session, *base.Response, 
 			c.Scheme = ru.Scheme
 			c.Host = ru.Host
 
-			return c.doDescribe(ru)
+			// prevent servers from redirecting the client forever
+			if redirectCount >= clientMaxRedirects {
+				return nil, nil, fmt.Errorf("too many redirects")
+			}
+
+			return c.doDescribeRedirect(ru, redirectCount+1)
 		}
 
 		return nil, res, liberrors.ErrClientBadStatusCode{Code: res.StatusCode, Message: res.StatusMessage}
